@@ -300,6 +300,9 @@ def classify(q, res, out):
                 bad.append((pid, desc))
     res.bad, res.unreached, res.kf_hit, res.notes, res.witness_ok = bad, unreached, kf_hit, notes, wit_ok
     res.inconcl = inconcl
+    if q.kf and kf_hit and not bad:
+        inconcl = []   # demonstration reached its finding; later properties may be UNKNOWN
+        res.inconcl = []
     if bad:
         res.status = "violation"
     elif inconcl:
